@@ -179,6 +179,16 @@ func evalC20(c c20Case, o *Obs) error {
 				in.tx = txs[((op.Item%len(txs))+len(txs))%len(txs)]
 				hasTx = true
 				writers++
+			case "scan":
+				// a block scan for this filter (what a node does for a peer while the peer keeps sending filteradd):
+				// built from the documented-safe operations only, so it may run next to them; no sequential
+				// model (it is many operations), only the race detector and the absence of panics judge it
+				if len(txs) == 0 || c.Linear {
+					return hbug("scan without transactions or in a linearizability program")
+				}
+				hasTx = true
+				writers++
+				o.Class("C20:with-block-scan")
 			case "add", "addhash", "addoutpoint":
 				writers++
 				hasAdd = true
@@ -286,6 +296,16 @@ func evalC20(c c20Case, o *Obs) error {
 						ev.out, ev.outValid = f.MatchesOutPoint(wire.NewOutPoint(toHash(in.data[:32]), in.op.Index)), true
 					case "matchtx":
 						ev.out, ev.outValid = f.MatchTxAndUpdate(wrapped[((in.op.Item%len(txs))+len(txs))%len(txs)]), true
+					case "scan":
+						blk := wire.NewMsgBlock(&wire.BlockHeader{Version: 1})
+						for _, b := range txs {
+							blk.AddTransaction(b.msg)
+						}
+						if in.op.Item%2 == 0 {
+							bloom.GetMatchedIndices(bchutil.NewBlock(blk), f)
+						} else {
+							bloom.NewMerkleBlock(bchutil.NewBlock(blk), f)
+						}
 					case "msg":
 						ev.out, ev.outValid = f.MsgFilterLoad() != nil, true // contents are not touched while others run
 					}
@@ -567,6 +587,9 @@ func genC20(t *rapid.T) c20Case {
 				op.Op = "matchesoutpoint"
 			case r < 16:
 				op.Op = "matchtx"
+				if !c.Linear && len(c.Txs.Txs) > 0 && rapid.IntRange(0, 2).Draw(t, "scan") == 0 {
+					op.Op = "scan"
+				}
 			case r < 17:
 				op.Op = "msg"
 			case r < 18:
